@@ -1158,13 +1158,14 @@ pub(crate) fn interpret_isodatetime_offset(
             date.is_valid_day_range()?;
             let iso = IsoDateTime::new_unchecked(date, time);
             // 8. Let utcEpochNanoseconds be GetUTCEpochNanoseconds(isoDateTime).
-            let utc_epochs = iso.as_nanoseconds()?;
+            // NOTE: the wall-clock reading is not an instant and is not range-checked as one.
+            let utc_epochs = iso.as_unchecked_nanoseconds();
             // 9. Let possibleEpochNs be ? GetPossibleEpochNanoseconds(timeZone, isoDateTime).
             let possible_nanos = timezone.get_possible_epoch_ns_for(iso, provider)?;
             // 10. For each element candidate of possibleEpochNs, do
             for candidate in &possible_nanos {
                 // a. Let candidateOffset be utcEpochNanoseconds - candidate.
-                let candidate_offset = utc_epochs.0 - candidate.0;
+                let candidate_offset = utc_epochs - candidate.0;
                 // b. If candidateOffset = offsetNanoseconds, then
                 if candidate_offset == offset.into() {
                     // i. Return candidate.
